@@ -56,6 +56,9 @@ func makePassword(m chiptest.MRZCase, k pwKind) (*password.Password, error) {
 
 func dg1File(mrz string) []byte { return der.TLV(0x61, der.TLV(0x5F1F, []byte(mrz))) }
 
+// lastChip is the chip of the run in progress (the deviation hook runs inside it).
+var lastChip *chipsim.Chip
+
 type session struct {
 	chip *chipsim.Chip
 	nfc  *iso7816.NfcSession
@@ -73,6 +76,7 @@ func runBAC(m chiptest.MRZCase, pass *password.Password, chipMRZInfo string, chi
 		Deviate: deviate,
 	}
 	chip := chipsim.New(cfg)
+	lastChip = chip
 	nfc := iso7816.NewNfcSession(chip)
 	var doc document.Document
 	res, err := bac.NewBAC(nfc, &doc, pass).DoBAC()
@@ -183,7 +187,8 @@ type hostileCtx struct {
 	kenc, kmac []byte // the MRZ keys (known to the test, as personaliser)
 	otherKenc  []byte
 	otherKmac  []byte
-	replay     []byte // genuine response of another run (other RND.IFD)
+	replay     []byte        // genuine response of another run (other RND.IFD)
+	termReq    func() []byte // the terminal's own EXTERNAL AUTHENTICATE cryptogram of this run
 }
 
 func reseal(kenc, kmac, plain []byte) []byte {
@@ -248,6 +253,14 @@ var strategies = []strategy{
 		}
 		return o
 	}},
+	{"reflect-terminal-cryptogram", func(rt *rapid.T, g []byte, c *hostileCtx) []byte {
+		// a chip that does not know the MRZ sends the terminal's own 40 bytes back
+		return append([]byte{}, c.termReq()...)
+	}},
+	{"reflect-terminal-plaintext-resealed", func(rt *rapid.T, g []byte, c *hostileCtx) []byte {
+		// RND.IFD || RND.IC || K.IFD (the terminal's order) under the genuine keys
+		return reseal(c.kenc, c.kmac, open(c.kenc, c.termReq()))
+	}},
 	{"zero-mac", func(rt *rapid.T, g []byte, _ *hostileCtx) []byte {
 		return append(append([]byte{}, g[:32]...), make([]byte, 8)...)
 	}},
@@ -285,7 +298,9 @@ func TestBACHostileResponses(t *testing.T) {
 			ctx.replay = captured
 		}
 		var genuine, sent []byte
-		s := runBAC(m, pass, m.Info, seeded(chipSeed), func(step string, v []byte) []byte {
+		var hs *session
+		ctx.termReq = func() []byte { return lastChip.BACTerminalCryptogram() }
+		hs = runBAC(m, pass, m.Info, seeded(chipSeed), func(step string, v []byte) []byte {
 			if step != "bac-response" {
 				return v
 			}
@@ -293,6 +308,7 @@ func TestBACHostileResponses(t *testing.T) {
 			sent = st.build(rt, v, ctx)
 			return sent
 		})
+		s := hs
 		if genuine == nil {
 			evid.Fail(rt, "hostile-setup", map[string]any{"mrz": m.Full}, "chip refused EXTERNAL AUTHENTICATE of the library (keys differ?): %v", s.err)
 		}
